@@ -53,6 +53,7 @@ fn tab_columns(s: &str) -> (r: usize)
     ensures r as int == tab_pieces(s@), 1 <= r <= usize::MAX / 2 + 1,
 { s.split('\t').count() }
 fn min_usize(a: usize, b: usize) -> (r: usize) ensures r == (if a <= b { a } else { b }) { if a <= b { a } else { b } }
+fn saturating_sub_usize(a: usize, b: usize) -> (r: usize) ensures r == (if a >= b { a - b } else { 0 }) { if a >= b { a - b } else { 0 } }
 fn max_usize(a: usize, b: usize) -> (r: usize) ensures r == (if a >= b { a } else { b }) { if a >= b { a } else { b } }
 
 // ---------------- specification vocabulary (from the property / the BED format) ----------------
